@@ -18,6 +18,48 @@ template<unsigned R, unsigned C> static void out_cm (const std::string& p, const
 template<unsigned R, unsigned C> static void cmp_m (const std::string& what, const Matrix<R,C,double>& a, const Matrix<R,C,double>& b)
 { if (!symbolic) for (unsigned i=0; i<R; i++) for (unsigned j=0; j<C; j++) expect (what, a[i][j], b[i][j]); }
 
+#ifndef SYMX_SYMBOLIC
+// shapes up to 6x6 against naive reference loops, and exact behaviour under power-of-two scaling
+static uint64_t lcg13 = 4242;
+static double rnd13 () { lcg13 = lcg13 * 6364136223846793005ULL + 1442695040888963407ULL; return double (int ((lcg13 >> 33) % 4001) - 2000) / 512.0; }
+template<unsigned R, unsigned C> static Matrix<R,C,double> rmat () { Matrix<R,C,double> m; for (unsigned i=0; i<R; i++) for (unsigned j=0; j<C; j++) m[i][j] = rnd13 (); return m; }
+template<unsigned R, unsigned K, unsigned C> static void shape_product (const char* tag)
+{
+  Matrix<R,K,double> a = rmat<R,K> (); Matrix<K,C,double> b = rmat<K,C> (); Matrix<R,C,double> p = a * b; char what[200];
+  for (unsigned i=0; i<R; i++) for (unsigned j=0; j<C; j++) { double w = 0; for (unsigned k=0; k<K; k++) w += a[i][k] * b[k][j];
+    snprintf (what, 200, "%s: (%ux%u)(%ux%u) product element [%u][%u]", tag, R, K, K, C, i, j); expect (what, p[i][j], w, 1e-12); }
+  Matrix<C,R,double> pt = transpose (p), bt_at = transpose (b) * transpose (a);
+  for (unsigned i=0; i<C; i++) for (unsigned j=0; j<R; j++) { snprintf (what, 200, "%s: transpose reverses the (%ux%u)(%ux%u) product", tag, R, K, K, C); expect (what, pt[i][j], bt_at[i][j], 1e-12); }
+  Vector<K,double> v; for (unsigned k=0; k<K; k++) v[k] = rnd13 (); Vector<R,double> av = a * v;
+  for (unsigned i=0; i<R; i++) { double w = 0; for (unsigned k=0; k<K; k++) w += a[i][k] * v[k]; snprintf (what, 200, "%s: (%ux%u) matrix times vector, element %u", tag, R, K, i); expect (what, av[i], w, 1e-12); }
+  Vector<R,double> u; for (unsigned i=0; i<R; i++) u[i] = rnd13 (); Vector<K,double> ua = u * a;
+  for (unsigned k=0; k<K; k++) { double w = 0; for (unsigned i=0; i<R; i++) w += u[i] * a[i][k]; snprintf (what, 200, "%s: vector times (%ux%u) matrix, element %u", tag, R, K, k); expect (what, ua[k], w, 1e-12); }
+  // homogeneity: scaling both factors by 2^e scales the product by 2^(2e) exactly
+  for (int e : { -300, -100, 100, 300 }) { double sc = std::ldexp (1.0, e), sc2 = std::ldexp (1.0, 2*e); Matrix<R,K,double> as = a; as *= sc; Matrix<K,C,double> bs = b; bs *= sc; Matrix<R,C,double> ps = as * bs;
+    snprintf (what, 200, "%s: (%ux%u)(%ux%u) product of operands scaled by 2^%d is the product scaled by 2^%d, exactly", tag, R, K, K, C, e, 2*e);
+    bool ok = true; for (unsigned i=0; i<R; i++) for (unsigned j=0; j<C; j++) ok = ok && ps[i][j] == p[i][j] * sc2; expect_true (what, ok); }
+}
+template<unsigned N> static void shape_inverse (const char* tag, int pattern)
+{
+  Matrix<N,N,double> a = rmat<N,N> (); char what[200];
+  if (pattern == 1) for (unsigned i=0; i<N; i++) for (unsigned j=0; j<N; j++) a[i][j] = (j == (i + 1) % N) ? 2.0 + i : 0.0;       // permutation-like: every pivot needs an exchange
+  if (pattern == 2) for (unsigned i=0; i<N; i++) a[i][i] = 0.0;                                                                 // zero diagonal
+  if (pattern == 3) for (unsigned i=0; i<N; i++) for (unsigned j=0; j<N; j++) a[i][j] = (i == j ? 4.0 : 0.0) + double ((i * 7 + j * 3) % 5) - 2.0;   // small integers
+  Matrix<N,N,double> ai = inv (a), l = ai * a, r = a * ai;
+  for (unsigned i=0; i<N; i++) for (unsigned j=0; j<N; j++) { snprintf (what, 200, "%s %ux%u pattern %d: inv(A) A = 1 [%u][%u]", tag, N, N, pattern, i, j); expect (what, l[i][j], i == j ? 1.0 : 0.0, 1e-9);
+    snprintf (what, 200, "%s %ux%u pattern %d: A inv(A) = 1 [%u][%u]", tag, N, N, pattern, i, j); expect (what, r[i][j], i == j ? 1.0 : 0.0, 1e-9); }
+  for (int e : { -300, -100, 100, 300 }) { double sc = std::ldexp (1.0, e), si = std::ldexp (1.0, -e); Matrix<N,N,double> as = a; as *= sc; Matrix<N,N,double> ais = inv (as);
+    snprintf (what, 200, "%s %ux%u pattern %d: the inverse of A scaled by 2^%d is inv(A) scaled by 2^%d, exactly", tag, N, N, pattern, e, -e);
+    bool ok = true; for (unsigned i=0; i<N; i++) for (unsigned j=0; j<N; j++) ok = ok && ais[i][j] == ai[i][j] * si; expect_true (what, ok); }
+}
+template<unsigned R, unsigned C, unsigned P, unsigned Q> static void shape_direct (const char* tag)
+{
+  Matrix<R,C,double> a = rmat<R,C> (); Matrix<P,Q,double> b = rmat<P,Q> (); Matrix<R*P,C*Q,double> d = direct (a, b); char what[200];
+  for (unsigned i=0; i<R; i++) for (unsigned j=0; j<C; j++) for (unsigned k=0; k<P; k++) for (unsigned l=0; l<Q; l++) {
+    snprintf (what, 200, "%s: Kronecker product (%ux%u)x(%ux%u) element", tag, R, C, P, Q); expect (what, d[i*P+k][j*Q+l], a[i][j] * b[k][l], 1e-12); }
+}
+#endif
+
 int main (int argc, char** argv)
 {
   symx::init ("C13", argc > 1 ? argv[1] : ".");
@@ -102,6 +144,14 @@ int main (int argc, char** argv)
       bool thrown = false; try { Matrix<3,3,double> b = inv (a); (void) b; } catch (std::exception&) { thrown = true; }
       char what[160]; snprintf (what, 160, "singular matrix [%g %g %g; %g %g %g; %g %g %g] is reported as singular", m[0],m[1],m[2],m[3],m[4],m[5],m[6],m[7],m[8]);
       expect_true (what, thrown); } }, 1);
+  fn ("shapes_and_scales_plain", [] { lcg13 = 4242;
+    shape_product<2,3,2> ("small"); shape_product<4,5,6> ("rect"); shape_product<6,6,6> ("6x6"); shape_product<1,6,1> ("row-col"); shape_product<6,1,6> ("col-row"); shape_product<5,2,5> ("thin"); shape_product<3,6,4> ("wide");
+    for (int pat=0; pat<4; pat++) { shape_inverse<2> ("inverse", pat); shape_inverse<3> ("inverse", pat); shape_inverse<4> ("inverse", pat); shape_inverse<5> ("inverse", pat); shape_inverse<6> ("inverse", pat); }
+    shape_direct<2,3,3,2> ("kron"); shape_direct<3,2,2,3> ("kron"); shape_direct<1,6,6,1> ("kron"); shape_direct<2,2,3,3> ("kron");
+    Matrix<6,6,double> m = rmat<6,6> (); double tr = 0; for (unsigned i=0; i<6; i++) tr += m[i][i]; expect ("trace of a 6x6 matrix", trace (m), tr, 1e-12);
+    Vector<6,double> a, b; for (unsigned i=0; i<6; i++) { a[i] = rnd13 (); b[i] = rnd13 (); } Matrix<6,6,double> o = outer (a, b); double dt = 0;
+    for (unsigned i=0; i<6; i++) { dt += a[i] * b[i]; for (unsigned j=0; j<6; j++) expect ("outer product of 6-vectors", o[i][j], a[i] * b[j], 1e-12); }
+    expect ("dot product of 6-vectors", a * b, dt, 1e-12); expect ("trace(outer) = dot", trace (o), dt, 1e-12); }, 1);
 #endif
   symx::finish ();
   return 0;
